@@ -1,2 +1,371 @@
-//! Serialised token-passing scheduler (filled in later).
-pub fn on_site(_site: u32, _a: usize, _b: usize) {}
+//! Serialised token-passing scheduler.
+//!
+//! All threads of a small program are real OS threads, but only the holder of a token runs; at
+//! every hook site the handler may hand the token to another thread (seeded random walk, or an
+//! exact replay of recorded decisions). Blocking is made visible instead of blocking the OS
+//! thread: `BEFORE_LOCK` polls `Mutex::is_locked()` and passes the token while the lock is held,
+//! `PRE_PARK` waits for the matching `AFTER_UNPARK`, spin loops have a yield site. "Every
+//! unfinished thread is waiting" is a deadlock verdict, exceeding the step budget a livelock
+//! verdict; both are logical, not timed.
+use flurry::verif as fvf;
+use std::cell::Cell;
+use std::sync::{Condvar, Mutex, MutexGuard};
+use std::thread::ThreadId;
+
+#[derive(Clone, Copy, PartialEq, Eq, Debug)]
+pub enum St {
+    Runnable,
+    /// polled a held lock and has not been rescheduled since a lock holder made progress
+    LockWait,
+    Parked,
+    Finished,
+}
+
+#[derive(Clone, Debug, PartialEq, Eq)]
+pub enum Verdict {
+    Completed,
+    Deadlock(String),
+    Livelock(String),
+    Panicked(String),
+}
+
+pub struct Sched {
+    cur: usize,
+    st: Vec<St>,
+    ids: Vec<Option<ThreadId>>,
+    pending_unpark: Vec<bool>,
+    /// threads in LockWait that already polled since the last progress of anybody else
+    polled: Vec<bool>,
+    rng: u64,
+    pub steps: u64,
+    pub switches: u64,
+    pub budget: u64,
+    switch_den: u64,
+    pub trace_hash: u64,
+    pub decisions: Vec<u8>,
+    replay: Option<Vec<u8>>,
+    replay_pos: usize,
+    pub verdict: Option<Verdict>,
+    pub lock_waits: u64,
+    pub parks: u64,
+    pub replay_diverged: bool,
+}
+
+static SCHED: Mutex<Option<Sched>> = Mutex::new(None);
+static CV: Condvar = Condvar::new();
+thread_local! {
+    static ME: Cell<usize> = const { Cell::new(usize::MAX) };
+}
+
+type G = MutexGuard<'static, Option<Sched>>;
+
+fn lock() -> G {
+    SCHED.lock().unwrap_or_else(|e| e.into_inner())
+}
+
+impl Sched {
+    fn rnd(&mut self) -> u64 {
+        self.rng ^= self.rng << 13;
+        self.rng ^= self.rng >> 7;
+        self.rng ^= self.rng << 17;
+        self.rng
+    }
+    fn schedulable(&self, i: usize) -> bool {
+        match self.st[i] {
+            St::Runnable => true,
+            St::LockWait => !self.polled[i],
+            St::Parked => self.pending_unpark[i],
+            St::Finished => false,
+        }
+    }
+    /// picks the next token holder; false = nobody can run
+    fn pick(&mut self, avoid: Option<usize>) -> bool {
+        let cands: Vec<usize> = (0..self.st.len()).filter(|&i| self.schedulable(i)).collect();
+        if cands.is_empty() {
+            return false;
+        }
+        let pool: Vec<usize> = match avoid {
+            Some(x) if cands.iter().any(|&c| c != x) => cands.iter().copied().filter(|&c| c != x).collect(),
+            _ => cands,
+        };
+        // the random stream is consumed in replay mode, too, so that the switch points stay aligned
+        let random_choice = pool[(self.rnd() % pool.len() as u64) as usize];
+        let next = if let Some(r) = &self.replay {
+            match r.get(self.replay_pos) {
+                Some(&d) if pool.contains(&(d as usize)) => d as usize,
+                _ => {
+                    self.replay_diverged = true;
+                    random_choice
+                }
+            }
+        } else {
+            random_choice
+        };
+        self.replay_pos += 1;
+        self.decisions.push(next as u8);
+        if next != self.cur {
+            self.switches += 1;
+        }
+        self.cur = next;
+        self.trace_hash = self.trace_hash.wrapping_mul(0x100_0000_01b3) ^ (next as u64 + 1) ^ (self.steps << 8);
+        true
+    }
+    fn progress(&mut self) {
+        for p in self.polled.iter_mut() {
+            *p = false;
+        }
+    }
+    fn describe(&self) -> String {
+        format!("thread states {:?}, pending unparks {:?}", self.st, self.pending_unpark)
+    }
+}
+
+fn stuck_forever() -> ! {
+    // the verdict has been recorded; this thread is abandoned (the process ends soon)
+    loop {
+        std::thread::sleep(std::time::Duration::from_secs(3600));
+    }
+}
+
+fn wait_turn(me: usize, mut g: G) -> G {
+    CV.notify_all();
+    loop {
+        {
+            let s = g.as_ref().unwrap();
+            if s.verdict.is_some() && s.verdict != Some(Verdict::Completed) {
+                drop(g);
+                stuck_forever();
+            }
+            if s.cur == me {
+                return g;
+            }
+        }
+        g = CV.wait(g).unwrap_or_else(|e| e.into_inner());
+    }
+}
+
+fn fail(mut g: G, v: Verdict) -> ! {
+    g.as_mut().unwrap().verdict = Some(v);
+    CV.notify_all();
+    drop(g);
+    stuck_forever();
+}
+
+pub fn on_site(site: u32, a: usize, _b: usize) {
+    let me = ME.try_with(|m| m.get()).unwrap_or(usize::MAX);
+    if me == usize::MAX {
+        return;
+    }
+    let mut g = lock();
+    {
+        let s = g.as_mut().unwrap();
+        if s.verdict.is_some() {
+            drop(g);
+            stuck_forever();
+        }
+        s.steps += 1;
+        if s.steps > s.budget {
+            let d = s.describe();
+            let b = s.budget;
+            fail(g, Verdict::Livelock(format!("the program did not finish within {b} instrumented steps; {d}")));
+        }
+    }
+    match site {
+        fvf::BEFORE_LOCK => loop {
+            // safety: `a` is the address of a live `parking_lot::Mutex<()>` inside a node that
+            // the calling thread is about to lock (it holds a guard protecting the node)
+            let locked = unsafe { &*(a as *const parking_lot::Mutex<()>) }.is_locked();
+            let s = g.as_mut().unwrap();
+            if !locked {
+                s.st[me] = St::Runnable;
+                s.progress();
+                return;
+            }
+            s.lock_waits += 1;
+            s.st[me] = St::LockWait;
+            s.polled[me] = true;
+            if !s.pick(Some(me)) {
+                let d = s.describe();
+                fail(g, Verdict::Deadlock(format!("thread {me} waits for a bin lock and no other thread can run: {d}")));
+            }
+            if g.as_ref().unwrap().cur == me {
+                // only we can run, and the lock is still held by somebody who cannot: deadlock
+                let d = g.as_ref().unwrap().describe();
+                fail(g, Verdict::Deadlock(format!("thread {me} waits for a bin lock held by a thread that cannot run: {d}")));
+            }
+            g = wait_turn(me, g);
+        },
+        fvf::PRE_PARK => {
+            let s = g.as_mut().unwrap();
+            s.parks += 1;
+            if s.pending_unpark[me] {
+                s.pending_unpark[me] = false;
+                // the real park() that follows must not sleep
+                std::thread::current().unpark();
+                return;
+            }
+            s.st[me] = St::Parked;
+            s.progress();
+            if !s.pick(Some(me)) {
+                let d = s.describe();
+                fail(g, Verdict::Deadlock(format!("thread {me} parks waiting for tree-bin readers and nobody is left to wake it: {d}")));
+            }
+            g = wait_turn(me, g);
+            let s = g.as_mut().unwrap();
+            s.pending_unpark[me] = false;
+            s.st[me] = St::Runnable;
+            s.progress();
+            std::thread::current().unpark();
+        }
+        fvf::AFTER_UNPARK => {
+            // safety: `a` is the address of the `Thread` handle that was just unparked
+            let tid = unsafe { &*(a as *const std::thread::Thread) }.id();
+            let s = g.as_mut().unwrap();
+            if let Some(i) = s.ids.iter().position(|x| *x == Some(tid)) {
+                s.pending_unpark[i] = true;
+            }
+            s.progress();
+        }
+        fvf::SPIN => {
+            // a spin loop: always offer the token to somebody else
+            let s = g.as_mut().unwrap();
+            s.progress();
+            s.pick(Some(me));
+            if s.cur != me {
+                let _g = wait_turn(me, g);
+            }
+        }
+        _ => {
+            let s = g.as_mut().unwrap();
+            s.progress();
+            if s.rnd() % s.switch_den == 0 {
+                s.pick(None);
+                if s.cur != me {
+                    let _g = wait_turn(me, g);
+                }
+            }
+        }
+    }
+}
+
+pub struct RunResult {
+    pub verdict: Verdict,
+    pub steps: u64,
+    pub switches: u64,
+    pub trace_hash: u64,
+    pub decisions: Vec<u8>,
+    pub lock_waits: u64,
+    pub parks: u64,
+    pub watchdog: bool,
+    pub replay_diverged: bool,
+}
+
+/// Runs `prog(thread index)` on `n` threads under the serial scheduler.
+pub fn run<F>(n: usize, seed: u64, switch_den: u64, budget: u64, replay: Option<Vec<u8>>, prog: F) -> RunResult
+where
+    F: Fn(usize) + Send + Sync + 'static,
+{
+    *lock() = Some(Sched {
+        cur: usize::MAX,
+        st: vec![St::Runnable; n],
+        ids: vec![None; n],
+        pending_unpark: vec![false; n],
+        polled: vec![false; n],
+        rng: crate::util::splitmix(seed) | 1,
+        steps: 0,
+        switches: 0,
+        budget,
+        switch_den: switch_den.max(1),
+        trace_hash: crate::util::FNV_OFFSET,
+        decisions: Vec::new(),
+        replay,
+        replay_pos: 0,
+        verdict: None,
+        lock_waits: 0,
+        parks: 0,
+        replay_diverged: false,
+    });
+    let prog = std::sync::Arc::new(prog);
+    let ready = std::sync::Arc::new(std::sync::Barrier::new(n + 1));
+    let mut hs = Vec::new();
+    for t in 0..n {
+        let (prog, ready) = (prog.clone(), ready.clone());
+        hs.push(std::thread::spawn(move || {
+            {
+                let mut g = lock();
+                g.as_mut().unwrap().ids[t] = Some(std::thread::current().id());
+            }
+            ready.wait();
+            {
+                let g = lock();
+                let _g = wait_turn(t, g);
+            }
+            ME.with(|m| m.set(t));
+            crate::hook::set_role(crate::hook::ROLE_SERIAL, t as u16, 0);
+            let r = crate::util::guarded(|| prog(t));
+            crate::hook::set_role(crate::hook::ROLE_NONE, 0, 0);
+            ME.with(|m| m.set(usize::MAX));
+            let mut g = lock();
+            let s = g.as_mut().unwrap();
+            s.st[t] = St::Finished;
+            s.progress();
+            if r.is_err() && s.verdict.is_none() {
+                s.verdict = Some(Verdict::Panicked(format!("thread {t} panicked: {}", r.unwrap_err())));
+            }
+            if !s.pick(None) && s.st.iter().any(|x| *x != St::Finished) && s.verdict.is_none() {
+                let d = s.describe();
+                s.verdict = Some(Verdict::Deadlock(format!("thread {t} finished and no remaining thread can run: {d}")));
+            }
+            CV.notify_all();
+        }));
+    }
+    ready.wait();
+    {
+        let mut g = lock();
+        g.as_mut().unwrap().pick(None);
+        CV.notify_all();
+    }
+    let t0 = std::time::Instant::now();
+    let mut watchdog = false;
+    loop {
+        {
+            let g = lock();
+            let s = g.as_ref().unwrap();
+            if s.verdict.is_some() || s.st.iter().all(|x| *x == St::Finished) {
+                break;
+            }
+        }
+        if t0.elapsed().as_secs() > 30 {
+            watchdog = true;
+            break;
+        }
+        std::thread::sleep(std::time::Duration::from_micros(20));
+    }
+    let (verdict, done) = {
+        let mut g = lock();
+        let s = g.as_mut().unwrap();
+        let done = s.st.iter().all(|x| *x == St::Finished);
+        if s.verdict.is_none() && done {
+            s.verdict = Some(Verdict::Completed);
+        }
+        (s.verdict.clone(), done)
+    };
+    if done && verdict == Some(Verdict::Completed) {
+        for h in hs {
+            let _ = h.join();
+        }
+    }
+    let g = lock();
+    let s = g.as_ref().unwrap();
+    RunResult {
+        verdict: verdict.unwrap_or(Verdict::Completed),
+        steps: s.steps,
+        switches: s.switches,
+        trace_hash: s.trace_hash,
+        decisions: s.decisions.clone(),
+        lock_waits: s.lock_waits,
+        parks: s.parks,
+        watchdog,
+        replay_diverged: s.replay_diverged,
+    }
+}
